@@ -42,6 +42,16 @@ pub fn arrival_menu(quick: bool) -> Vec<ArrSpec> {
         ArrSpec::Sporadic { t: 4, j: 1 },
         ArrSpec::Periodic { t: 6 },
     ]));
+    // (a never-arriving task is legal as an *interfering* task)
+    v.push(ArrSpec::Never);
+    v.push(ArrSpec::Prefix {
+        horizon: 8,
+        steps: vec![(1, 1), (3, 2), (7, 3)],
+    });
+    v.push(ArrSpec::SumOf(
+        Box::new(ArrSpec::Sporadic { t: 5, j: 6 }),
+        Box::new(ArrSpec::Periodic { t: 4 }),
+    ));
     if !quick {
         v.push(ArrSpec::Curve {
             dmin: vec![1, 2, 12, 15],
@@ -56,8 +66,8 @@ pub fn arrival_menu(quick: bool) -> Vec<ArrSpec> {
             prefix_jobs: 3,
         });
         v.push(ArrSpec::Prefix {
-            horizon: 8,
-            steps: vec![(1, 1), (3, 2), (7, 3)],
+            horizon: 11,
+            steps: vec![(1, 2), (6, 3), (10, 5)],
         });
     }
     v
@@ -265,7 +275,8 @@ pub fn cases(quick: bool) -> Vec<UniCase> {
     for a0 in &thin {
         for a1 in &thin {
             for a2 in &thin {
-                for (d0, d1, d2) in [(2u64, 7u64, 4u64), (9, 3, 5), (4, 4, 4)] {
+                // (two potential blockers with different segment lengths in both deadline orders)
+                for (d0, d1, d2) in [(2u64, 7u64, 4u64), (9, 3, 5), (4, 4, 4), (9, 12, 3), (12, 9, 3)] {
                     for ana in [Ana::EdfP, Ana::EdfNp, Ana::EdfLp, Ana::EdfFl] {
                         v.push(UniCase {
                             ana,
